@@ -42,7 +42,8 @@ PROPS["C03"] = dict(configs=["verifnet"], harness="ledger", family="hist", harne
 
 for _pid, _mods in (("C04", ["Check.C04"]), ("C05", ["Spec.WellFormed", "Check.C05"]), ("C17", ["Check.C01", "Check.C17"]),
                     ("C02", ["Check.C01", "Check.C17", "Spec.Rules", "Check.C02"]),
-                    ("C06", ["Check.C01", "Check.C17", "Spec.Rules", "Check.C02", "Check.C06"])):
+                    ("C06", ["Check.C01", "Check.C17", "Spec.Rules", "Check.C02", "Spec.WellFormed", "Check.C06"]),
+                    ("C10", ["Check.C01", "Check.C17", "Spec.Rules", "Check.C02", "Spec.WellFormed", "Check.C03", "Check.C10"])):
     PROPS[_pid] = dict(configs=["verifnet"], harness="ledger", family="hist", harness_procs=8, parallel=16,
         check_mods=HIST_MODS + _mods, corr=_pid.lower() + "_bad_corr", prop=_pid.lower() + "_bad_prop", trusted_extra=HIST_TB,
         technique="Coq proof over the ledger/node model + differential correspondence on generated block-tree histories",
